@@ -35,3 +35,11 @@
 ; sendAttempts: number of send statements and selects with a send case executed so far (entered by
 ; the verifier); used for "one output attempt per input" in the worker goroutine
 ; ghost sendAttempts Int
+; msgLast[a]: the value of the last successful scalar read through the protoscan base at address a
+; ghost msgLast (Array Int Int)
+; itField[a]: the field number the message was positioned at when the iterator at address a was made
+; ghost itField (Array Int Int)
+; filter callbacks (C08): filterCalls counts calls of user filter functions, lastVerdict is what the
+; last one returned
+; ghost filterCalls Int
+; ghost lastVerdict Bool
